@@ -161,6 +161,20 @@ impl IdMap {
             }
         };
 
+        // The node table is one contiguous run of pages.  When it grows into the next page and
+        // that page already belongs to another structure, move the table to a fresh extent
+        // instead of overwriting the neighbour.
+        let start = {
+            let (page_id, offset) = i2e_location(start, internal_id as u64)?;
+            if internal_id > 0 && offset == 0 && pager.is_page_allocated(page_id) {
+                let moved = self.relocate_i2e(pager, start)?;
+                self.i2e_start = Some(moved);
+                moved
+            } else {
+                start
+            }
+        };
+
         // For now, only persist first label in I2E (backward compat)
         let first_label = labels.first().copied().unwrap_or(0);
         write_i2e_record(
@@ -191,6 +205,27 @@ impl IdMap {
             flags: 0,
         });
         Ok(())
+    }
+
+    /// Copies the node table to a fresh contiguous extent at the end of the file (with room
+    /// for one more page), switches the meta pointer, and frees the old pages.
+    fn relocate_i2e(&mut self, pager: &mut Pager, old_start: PageId) -> Result<PageId> {
+        let pages = (self.i2e_len as usize).div_ceil(I2E_RECORDS_PER_PAGE) as u64;
+        let new_start = PageId::new(pager.next_page_id());
+        for i in 0..=pages {
+            pager.ensure_allocated(PageId::new(new_start.as_u64() + i))?;
+        }
+        for i in 0..pages {
+            let page = pager.read_page(PageId::new(old_start.as_u64() + i))?;
+            pager.write_page(PageId::new(new_start.as_u64() + i), &page)?;
+        }
+        // The copy must be durable before the meta page points to it.
+        pager.sync()?;
+        pager.set_i2e_start_page(Some(new_start))?;
+        for i in 0..pages {
+            pager.free_page(PageId::new(old_start.as_u64() + i))?;
+        }
+        Ok(new_start)
     }
 
     /// Add a label to an existing node.
